@@ -183,7 +183,58 @@ def n_membership(src: str, path: str) -> str:
     return ast.unparse(ast.fix_missing_locations(tree)) + "\n"
 
 
-NEUTRAL: dict[str, Callable[[str, str], str]] = {"ast-roundtrip": n_unparse, "rename-locals": n_rename, "extract-conditions": n_extract, "membership-and-eq-forms": n_membership}
+def _ends(block: list[ast.stmt]) -> bool:
+    if not block:
+        return False
+    last = block[-1]
+    if isinstance(last, (ast.Return, ast.Raise, ast.Continue, ast.Break)):
+        return True
+    return isinstance(last, ast.If) and bool(last.orelse) and _ends(last.body) and _ends(last.orelse)
+
+
+def n_invert_if(src: str, path: str) -> str:
+    """`if c: A else: B` -> `if not c: B else: A` (every if that has an else part)"""
+    tree = ast.parse(src)
+    for node in ast.walk(tree):
+        if isinstance(node, ast.If) and node.orelse and not any(isinstance(n, ast.NamedExpr) for n in ast.walk(node.test)):
+            node.test = ast.UnaryOp(op=ast.Not(), operand=node.test)
+            node.body, node.orelse = node.orelse, node.body
+    return ast.unparse(ast.fix_missing_locations(tree)) + "\n"
+
+
+def n_else_after_return(src: str, path: str) -> str:
+    """`if c: ...; return` followed by more statements -> the rest moves into an `else:`"""
+    tree = ast.parse(src)
+    changed = True
+    while changed:
+        changed = False
+        for holder in ast.walk(tree):
+            for fld in ("body", "orelse", "finalbody"):
+                block = getattr(holder, fld, None)
+                if not isinstance(block, list) or len(block) < 2 or not isinstance(block[0], ast.stmt):
+                    continue
+                for i, stmt in enumerate(block[:-1]):
+                    if isinstance(stmt, ast.If) and not stmt.orelse and _ends(stmt.body) and not getattr(stmt, "_done", False):
+                        stmt.orelse = block[i + 1 :]
+                        del block[i + 1 :]
+                        stmt._done = True  # type: ignore[attr-defined]
+                        changed = True
+                        break
+                if changed:
+                    break
+            if changed:
+                break
+    return ast.unparse(ast.fix_missing_locations(tree)) + "\n"
+
+
+def n_combined(src: str, path: str) -> str:
+    """all of the above on top of each other"""
+    for fn in (n_rename, n_membership, n_else_after_return, n_invert_if, n_extract):
+        src = fn(src, path)
+    return src
+
+
+NEUTRAL: dict[str, Callable[[str, str], str]] = {"ast-roundtrip": n_unparse, "rename-locals": n_rename, "extract-conditions": n_extract, "membership-and-eq-forms": n_membership, "invert-if-else": n_invert_if, "else-after-return": n_else_after_return, "combined": n_combined}
 
 
 # ------------------------------------------------------------------------------------------------ running
